@@ -105,6 +105,20 @@ def is_try_propagated(pm, n):
         if k == "Match" and p.get("src") == "Normal" and any(a is cur for a in p.get("arms", [])):
             cur = p   # ... is the value of the match
             continue
+        if k == "Match" and p.get("src") == "Normal" and p.get("scrut") is cur:
+            # `match x { Ok(v) => v, Err(e) => return Err(..) }` is `x?` written out: every arm that takes the error / the missing value leaves
+            # with an Err / None
+            bad_arms = [a for a in p.get("arms", []) if pat_key(a["pat"]).startswith(("Result::Err", "Option::None", "_"))]
+            def leaves_with_error(body):
+                b_ = strip(body)
+                while b_.get("k") == "Block" and not b_.get("stmts") and isinstance(b_.get("expr"), dict) and "mac_src" not in b_:
+                    b_ = strip(b_["expr"])
+                if b_.get("k") != "Ret" or not isinstance(b_.get("e"), dict):
+                    return False
+                r_ = strip(b_["e"])
+                c_ = ctor_of(r_) if r_.get("k") == "Call" else None
+                return bool(c_ and c_[1] == "Err") or (r_.get("k") == "Path" and r_.get("res", {}).get("variant") == "None")
+            return bool(bad_arms) and all(leaves_with_error(a["body"]) for a in bad_arms)
         if k == "If" and (p.get("then") is cur or p.get("else") is cur):
             cur = p
             continue
